@@ -999,9 +999,13 @@ pub fn run<'tcx>(tcx: TyCtxt<'tcx>) {
     };
 
     if let (Some(tm), Some(tk)) = (t_mer, t_kmer) {
+        let t_immut = find_trait("MerImmut");
         for (t, _) in ktypes.clone().iter() {
             add_trait_methods(&mut cx, tm, *t, &mut roots);
             add_trait_methods(&mut cx, tk, *t, &mut roots);
+            if let Some(ti) = t_immut {
+                add_trait_methods(&mut cx, ti, *t, &mut roots);
+            }
         }
     }
     // comparison traits of the k-mer types (derived impls: eq / partial_cmp / cmp / lt …)
@@ -1063,7 +1067,7 @@ pub fn run<'tcx>(tcx: TyCtxt<'tcx>) {
         ));
     }
     if let Some(d) = find_adt("Lmer") {
-        let maxn = if thorough { 6 } else { 3 };
+        let maxn = 6;
         for n in 1..=maxn {
             let arr = Ty::new_array(tcx, tcx.types.u64, n);
             containers.push(Ty::new_adt(tcx, tcx.adt_def(d), tcx.mk_args(&[GenericArg::from(arr)])));
